@@ -331,6 +331,31 @@ def defaultCoercer (ext : Ext) (k : PKind) (layout : String) : Val → Option DV
   | .bool => fun v => (coerceBool v).map DVal.bool
   | .time => fun v => (coerceTime ext layout v).map (fun p => DVal.time p.1 p.2)
 
+/-- table of named custom coercers (`WithCoercer`), mirrored by `eng.NamedCoercer` in the harness -/
+def namedCoercer : String → Option (Val → Option DVal)
+  | "plus100" => some fun v => match v with
+    | .int .int n => if -1000000000000 < n ∧ n < 1000000000000 then some (.int .int (n + 100)) else none
+    | _ => none
+  | "strlen" => some fun v => match v with
+    | .str s => some (.int .int s.utf8ByteSize)
+    | _ => none
+  | "sfx" => some fun v => match v with
+    | .str s => some (.str (s ++ "~"))
+    | _ => none
+  | "yn" => some fun v => match v with
+    | .str "y" => some (.bool true)
+    | .str "n" => some (.bool false)
+    | _ => none
+  | _ => none
+
+/-- named slice coercers -/
+def namedSliceCoercer : String → Option (Val → Option (List Val))
+  | "csv" => some fun v => match v with
+    | .str s => some ((s.splitOn ",").map Val.str)
+    | .list xs => some xs
+    | _ => none
+  | _ => none
+
 partial def schema? (o : Oracle) : Sexp → Option Schema
   | .list [.atom "prim", k, .list (.atom "mods" :: mods), .list tests, .list posts] => do
     let k ← pkind? k
@@ -352,7 +377,11 @@ partial def schema? (o : Oracle) : Sexp → Option Schema
       | some [l] => l.str?
       | some _ => none
       | none => pure "RFC3339"
-    pure (.prim { kind := k, tests, posts, required, dflt, ctch, coerce := defaultCoercer o.ext k layout })
+    let coerce ← match optItem "coercer" mods with
+      | some [.atom name] => namedCoercer name
+      | some _ => none
+      | none => pure (defaultCoercer o.ext k layout)
+    pure (.prim { kind := k, tests, posts, required, dflt, ctch, coerce })
   | .list [.atom "slice", elem, zero, .list (.atom "mods" :: mods), .list tests, .list posts] => do
     let elem ← schema? o elem
     let zero ← dval? zero
@@ -371,7 +400,11 @@ partial def schema? (o : Oracle) : Sexp → Option Schema
         | _, _ => none
       | some _ => none
       | none => pure (none, none)
-    pure (.slice elem { tests, posts, required, dfltIn, dfltD, coerce := coerceSlice, zeroElem := zero })
+    let coerce ← match optItem "coercer" mods with
+      | some [.atom name] => namedSliceCoercer name
+      | some _ => none
+      | none => pure coerceSlice
+    pure (.slice elem { tests, posts, required, dfltIn, dfltD, coerce, zeroElem := zero })
   | .list [.atom "ptr", elem, zero, nn] => do
     let elem ← schema? o elem
     let zero ← dval? zero
